@@ -924,6 +924,11 @@ pub fn run_c17(ctx: &Ctx) -> i32 {
             }
         }
     }
+    // (debugging aid: VFSMC_ONLY_CLASS=<substring> keeps only the program classes whose label
+    // contains it; the evidence then lists just those classes)
+    if let Ok(only) = std::env::var("VFSMC_ONLY_CLASS") {
+        programs.retain(|(class, _, _)| class.contains(&only));
+    }
     println!("C17: {} programs", programs.len());
     let max_execs = if thorough { 300_000 } else { 60_000 };
     let results: Vec<(String, ExploreStats, usize, Vec<Violation>, Vec<usize>)> = programs
